@@ -62,8 +62,8 @@ let rec entries ty group = function
       else if is_analog ty then (n_of_hex value, [])
       else (n_of_dec value, []) in
     let v = if ty = "oct" then N0 else snd (gv_of var) in
-    { p_idx = n_of_dec idx; p_group = n_of_int group; p_var = v;
-      p_meas = { m_value = value_n; m_flags = n_of_dec flags; m_time = time_of time; m_bytes = bytes } }
+    { cp_idx = n_of_dec idx; cp_group = n_of_int group; cp_var = v;
+      cp_meas = { cm_value = value_n; cm_flags = n_of_dec flags; cm_time = time_of time; cm_bytes = bytes } }
     :: entries ty group rest
   | _ -> failwith "entry count does not match"
 
@@ -76,10 +76,10 @@ let obs_lines (raw, res) =
          Printf.sprintf "hdr %d %d %d %d %d" (int_of_n g) (int_of_n v) (int_of_n q) (if ie then 1 else 0) (if hf then 1 else 0)
        | OMeas (t, idx, m) ->
          let value = (match t with
-             | OOct -> hex m.m_bytes
-             | OT (AI | AOS | FAI) -> hex16_of_n m.m_value
-             | _ -> dec_of_n m.m_value) in
-         Printf.sprintf "m %s %d %s %d %s" (type_text t) (int_of_n idx) value (int_of_n m.m_flags) (time_text m.m_time)) obs)
+             | OOct -> hex m.cm_bytes
+             | OT (AI | AOS | FAI) -> hex16_of_n m.cm_value
+             | _ -> dec_of_n m.cm_value) in
+         Printf.sprintf "m %s %d %s %d %s" (type_text t) (int_of_n idx) value (int_of_n m.cm_flags) (time_text m.cm_time)) obs)
 
 let parse_selector s =
   (* g<G>v<V> or g<G>v<V>:a-b *)
@@ -105,12 +105,12 @@ let run_conv_engine (s : script) : string list =
            obs_lines (trip_static selection pts)
          | "ev" ->
            let evs = entries ty (event_group ty) rest in
-           (* the event variation of a point is the one of its first occurrence *)
+           (* the event variation of a cpoint is the one of its first occurrence *)
            let first = Hashtbl.create 8 in
            let evs = List.map (fun p ->
-               let k = int_of_n p.p_idx in
-               if not (Hashtbl.mem first k) then Hashtbl.add first k p.p_var;
-               { p with p_var = Hashtbl.find first k }) evs in
+               let k = int_of_n p.cp_idx in
+               if not (Hashtbl.mem first k) then Hashtbl.add first k p.cp_var;
+               { p with cp_var = Hashtbl.find first k }) evs in
            let req = if sel = "c1" || sel = "r1" then N0 else snd (fst (parse_selector sel)) in
            obs_lines (trip_event req evs)
          | _ -> failwith "bad op")
